@@ -10,7 +10,7 @@ MODULE = "TraceGrammar"
 
 
 def generate(rng, tier, shard, nshards):
-    n = 30 if tier == "quick" else 300
+    n = 60 if tier == "quick" else 600
     for gi in range(n):
         srn, shape = [("Rat", "acyclic"), ("Sat3", "any"), ("Rat", "acyclic"), ("Bool", "any"), ("Rat", "nocycle")][gi % 5]
         R = gops.SR[srn]
@@ -21,6 +21,15 @@ def generate(rng, tier, shard, nshards):
         names = rng.choice(["str", "int", "tuple"])
         G, _ = cfg_proj(g)
         base = {"sr": srn, "G": G, "names": names}
+        finite_total = srn in ("Sat3", "Bool") or shape == "acyclic"
+        if not finite_total:
+            pass
+        elif gi % 3 == 1 and len(G["rules"]) >= 2:
+            base["late"] = rng.randint(1, len(G["rules"]) - 1)
+            feat = feat + "+rules-added-after-evaluation"
+        elif gi % 3 == 2:
+            base["pre"] = [rng.choice(["agenda", "treesum", "naive", "agenda_maxiter"]) for _ in range(rng.randint(1, 2))]
+            feat = feat + "+history"
         yield gops.event("addeos", dict(base, L=3), site="add_EOS", feat=feat)
         if srn == "Rat" and shape == "acyclic":
             yield gops.event("normalize", dict(base, L=3), site="locally_normalize", feat=feat)
